@@ -646,18 +646,13 @@ BATCH_FIELDS = ("N", "K", "PD", "GN", "GD", "ID", "abs", "avail", "P", "R", "p0"
 
 
 def tlc_run(ctx, cases, tag="mc", coverage=False):
-    """One TLC run over the batch (thread-safe: private work directory, nothing touched in ctx)."""
+    """One TLC run over the batch (thread-safe: private work directory, nothing touched in ctx).
+    coverage=True: per-action coverage (-coverage 1, several times slower; the spec keeps a single call site
+    of Oracle because TLC's coverage cost model runs out of memory with two)."""
     batch = [{k: c["m"][k] for k in BATCH_FIELDS} for c in cases]
-    for attempt in range(1):
-        try:
-            return run_tlc(ctx.workdir / tag, MODULE, CFG, files={"batch.json": batch},
-                           env={"BATCH_FILE": "batch.json"}, coverage=coverage, workers=TLC_WORKERS)
-        except TLCFailure as e:
-            # the JVM could not get memory / threads at start-up (shared machine): environmental, retried
-            if "ran out of memory" not in str(e) or attempt == 0:
-                raise
-            import time
-            time.sleep(10 * (attempt + 1))
+    cfg = CFG
+    return run_tlc(ctx.workdir / tag, MODULE, cfg, files={"batch.json": batch},
+                   env={"BATCH_FILE": "batch.json"}, coverage=coverage, workers=TLC_WORKERS)
 
 
 def tlc_records(ctx, cases, what, res=None):
@@ -886,12 +881,14 @@ def run(ctx):
     size = -(-len(cases) // nchunks)
     chunks = [cases[k:k + size] for k in range(0, len(cases), size)]
     with ThreadPoolExecutor(max_workers=1) as pool:
-        # per-action coverage (slow) is collected on the first chunk of the thorough tier only
-        futs = [pool.submit(tlc_run, ctx, ch, f"mc{i}", ctx.tier == "thorough" and i == 0)
-                for i, ch in enumerate(chunks)]
+        futs = [pool.submit(tlc_run, ctx, ch, f"mc{i}") for i, ch in enumerate(chunks)]
+        # per-action coverage (slow) is collected in an extra run over the first 40 instances, thorough tier only
+        cov = pool.submit(tlc_run, ctx, cases[:40], "cov", True) if ctx.tier == "thorough" else None
         try:
             for ch, fut in zip(chunks, futs):
                 judge_cases(ctx, ch, res=fut.result())
+            if cov is not None:
+                tlc_records(ctx, cases[:40], "per-action coverage run (-coverage 1) over the first 40 instances", res=cov.result())
         finally:
             for fut in futs:
                 fut.cancel()
